@@ -1,3 +1,4 @@
+import sock_common
 from sock_common import sq, SOCK_ASSUMPTIONS
 
 FUNCS = ["p_socket_receive", "p_socket_send", "p_socket_accept", "p_socket_connect", "p_socket_io_condition_wait",
@@ -19,6 +20,7 @@ MANIFEST = {
 
 
 def queries(tier):
+    sock_common.TIER = tier
     F = 3
     qs = []
     for op, nm in ((1, "receive"), (2, "send"), (3, "accept"), (4, "connect"), (5, "io_condition_wait"), (6, "receive_from"), (7, "send_to")):
